@@ -2,6 +2,7 @@ package rules
 
 import (
 	"fmt"
+	"regexp"
 	"go/types"
 	"sort"
 	"strings"
@@ -476,6 +477,8 @@ func TMask(rc *RC) {
 // nil error, and a zero access pattern over live data breaks every later access. (b) The
 // branch for vectors takes at least the long axis' stride from the source pattern: a strided
 // view of a vector is not unit-strided, so constants alone cannot be its transposed strides.
+var t13SameAxis = regexp.MustCompile(`^%strides\[([^\]]+)\] = (?:\$r\.strides|%currentStride)\[([^\]]+)\]$`)
+
 func T13(rc *RC) {
 	rc.S.Declare("T13", "AP.T: no bare return with neither an error nor a built pattern; the vector branch derives the transposed strides from the source's strides, not from constants alone", 2)
 	key := "tensor.(*AP).T"
@@ -492,6 +495,7 @@ func T13(rc *RC) {
 	}
 	var bad []string
 	vec, vecFromSource := 0, 0
+	var sameAxis []string
 	for _, p := range paths {
 		f := pathG(p)
 		isVec := ir.Implies(f, ir.BAtom("$r.IsVector()"))
@@ -529,6 +533,13 @@ func T13(rc *RC) {
 				if fromSource {
 					vecFromSource++
 				}
+				// the two axes are exchanged: a transposed stride never comes from the same axis
+				// of the source
+				for _, st := range p.Steps {
+					if m := t13SameAxis.FindStringSubmatch(st.Head); m != nil && m[1] == m[2] {
+						sameAxis = append(sameAxis, st.Head)
+					}
+				}
 			}
 		}
 	}
@@ -536,6 +547,10 @@ func T13(rc *RC) {
 		rc.S.Viol("T13", key+"#returns", pos, strings.Join(uniq(bad), "; ")).Sig = "bare return"
 	} else {
 		rc.S.Ok("T13", key+"#returns", pos, fmt.Sprintf("%d paths: every bare return has set the error or built the pattern", len(paths)))
+	}
+	if len(sameAxis) > 0 {
+		rc.S.Viol("T13", key+"#vector-strides", pos, fmt.Sprintf("the vector branch takes a transposed stride from the same axis of the source (%s): the two axes are not exchanged", strings.Join(uniq(sameAxis), "; "))).Sig = "same-axis stride"
+		return
 	}
 	switch {
 	case vec == 0:
